@@ -412,24 +412,30 @@ def run_model(exe, cases, fuel=FUEL, shards=None, case_timeout=MODEL_CASE_TIMEOU
         out = []
         pr = None
         def start():
-            return subprocess.Popen([exe], stdin=subprocess.PIPE, stdout=subprocess.PIPE, stderr=subprocess.DEVNULL, text=True, bufsize=1)
+            # the extracted interpreter recurses deeply on long runs: a big stack (lmmm._big_stack)
+            return subprocess.Popen([exe], stdin=subprocess.PIPE, stdout=subprocess.PIPE, stderr=subprocess.DEVNULL, text=True, bufsize=1,
+                                    preexec_fn=lmmm._big_stack)
         try:
             pr = start()
             for line in chunk:
                 try:
                     pr.stdin.write(line + "\n")
                     pr.stdin.flush()
+                    ready, _, _ = select.select([pr.stdout], [], [], case_timeout)
                 except BrokenPipeError:
-                    raise RuntimeError("model driver died")
-                ready, _, _ = select.select([pr.stdout], [], [], case_timeout)
-                if not ready:
+                    ready = None
+                if ready is not None and not ready:
                     pr.kill(); pr.wait()
                     out.append({"timeout": True})
                     pr = start()
                     continue
-                ans = pr.stdout.readline()
+                ans = pr.stdout.readline() if ready else ""
                 if not ans:
-                    raise RuntimeError("model driver failed rc=%s after %d answers" % (pr.poll(), len(out)))
+                    # the driver died on this case (stack overflow of the extracted interpreter): the case is discarded and counted
+                    pr.kill(); pr.wait()
+                    out.append({"crashed": True})
+                    pr = start()
+                    continue
                 out.append(json.loads(ans))
         finally:
             if pr is not None:
@@ -929,7 +935,10 @@ def known_classes(p):
 
 
 def lambda_returns_sum_self(p):
-    """W10 (WASM): a lambda whose result is its own `self`, of a sum type (directly or as the value of an if / match arm)"""
+    """W10: a lambda whose result is its own `self`, of a sum type: directly, through a variable let-bound to it in the lambda, or
+    as the value of an if / match arm"""
+    def is_sum_self(e):
+        return e[0] == 'selfs' and e[1] != 'N' and e[1][0] == 'ss'
     def tails(e):
         e = tail_of(e)
         if e[0] == 'if': return tails(e[2]) + tails(e[3])
@@ -937,7 +946,31 @@ def lambda_returns_sum_self(p):
         return [e]
     for b in all_bodies(p):
         for l in subexprs(b):
-            if l[0] == 'lam' and any(t[0] == 'selfs' and t[1] != 'N' and t[1][0] == 'ss' for t in tails(l[2])):
+            if l[0] != 'lam': continue
+            bound = {s[1][1] for s in subexprs(l[2]) if s[0] == 'let' and s[1][0] == 'pv' and is_sum_self(s[2])}
+            if any(is_sum_self(t) or (t[0] == 'var' and t[1] in bound) for t in tails(l[2])):
+                return True
+    return False
+
+
+def reentrant_instances_class(p):
+    """W13 (WASM): a named function with a function-typed parameter returns (somewhere in its result) a stateful lambda that calls
+    that parameter, and the function is mentioned at least twice: an instance of the lambda may call another instance of the SAME
+    lambda (f(f(g)))"""
+    funs = set(fun_ids(p))
+    counts = {}
+    for b in all_bodies(p):
+        for x in subexprs(b):
+            if x[0] == 'var' and x[1] in funs:
+                counts[x[1]] = counts.get(x[1], 0) + 1
+    for g in p['globals']:
+        if g[0] != 'fun' or counts.get(g[1], 0) < 2: continue
+        fpars = {x for x, t, _ in g[2] if isinstance(t, (tuple, list)) and t[0] == 'Fn'}
+        if not fpars: continue
+        for l in nested_lambdas(g[3]):
+            calls = any((x[0] == 'app' and x[1][0] == 'var' and x[1][1] in fpars) or (x[0] == 'pipe' and x[2][0] == 'var' and x[2][1] in fpars)
+                        for x in subexprs(l[2]))
+            if calls and is_stateful_expr(l[2], funs):
                 return True
     return False
 
@@ -1007,7 +1040,7 @@ _known_classes_v1 = known_classes
 
 
 def known_classes(p):
-    return _known_classes_v1(p) | match_classes(p) | global_match_classes(p) | ({"W10"} if lambda_returns_sum_self(p) else set()) | tuple_match_binder_classes(p) | ({"W12"} if self_pattern_var_in_literal(p) else set())
+    return _known_classes_v1(p) | match_classes(p) | global_match_classes(p) | ({"W10"} if lambda_returns_sum_self(p) else set()) | tuple_match_binder_classes(p) | ({"W13"} if reentrant_instances_class(p) else set()) | ({"W12"} if self_pattern_var_in_literal(p) else set())
 
 
 # ---- C03/F66 (VM): GetUpValue of an open upvalue into a register above the stack top reads freed memory ----
